@@ -19,10 +19,16 @@ from simkit import core
 # ----------------------------------------------------------------------------------------------
 # instrumented peers (harness-owned user objects)
 # ----------------------------------------------------------------------------------------------
-def injection(name, n, m, kind, epoch=None):
+def injection(name, n, m, kind, epoch=None, dist=None):
     """the index stream of a sampler: n distinct indices out of range(m)"""
     if kind in ("seq", "noepoch"):
         return list(range(n))
+    if kind == "dist":
+        # a real rank-aware sampler: its own iteration for the announced epoch, computed on a fresh instance
+        from kappadata.samplers import DistributedSampler
+        s = DistributedSampler(_Sized(m), num_replicas=dist["W"], rank=dist["rank"], shuffle=True, seed=dist["seed"])
+        s.set_epoch(epoch or 0)
+        return [int(i) for i in s]
     pool = list(range(m))
     if kind == "fixedperm":
         random.Random(f"inj/{name}").shuffle(pool)
@@ -43,7 +49,21 @@ class _Sized:
         return self.m
 
 
-def make_sampler(name, n, m, kind, log, source_attr="data_source", dataset=None):
+def make_sampler(name, n, m, kind, log, source_attr="data_source", dataset=None, dist=None):
+    if kind == "dist":
+        from kappadata.samplers import DistributedSampler
+
+        class D(DistributedSampler):
+            def set_epoch(self, e):
+                log.append(["set_epoch", e])
+                super().set_epoch(e)
+
+            def __iter__(self):
+                log.append(["iter", name])
+                yield from super().__iter__()
+
+        return D(dataset if dataset is not None else _Sized(m), num_replicas=dist["W"], rank=dist["rank"], shuffle=True, seed=dist["seed"])
+
     class Base:
         def __len__(self):
             return n
@@ -119,8 +139,18 @@ def gen_world(rng, max_n=40, allow_multi_kind=True, max_cfg=4, loader=False):
             else:
                 c[k] = rng.choice([1, B, B + 1, 2 * B, spe, spe + 1, max(1, spe - 1), rng.randint(1, 2 * spe + 1)])
         configs.append(c)
-    return dict(N=N, M=N + rng.choice([0, 0, 2, 5]), B=B, drop_last=dl, dlbs=dlbs, budget=[kind, val], configs=configs,
-                main_kind=rng.choice(["seq", "perm", "perm", "noepoch"]), source_attr=rng.choice(["data_source", "dataset"]))
+    w = dict(N=N, M=N + rng.choice([0, 0, 2, 5]), B=B, drop_last=dl, dlbs=dlbs, budget=[kind, val], configs=configs,
+             main_kind=rng.choice(["seq", "perm", "perm", "noepoch"]), source_attr=rng.choice(["data_source", "dataset"]))
+    if rng.random() < 0.15:
+        # a real kd.DistributedSampler as main sampler: len(sampler) = ceil(M / W) = N
+        W = rng.choice([1, 2, 3])
+        w["dist"] = dict(W=W, rank=rng.randrange(W), seed=rng.randint(0, 99))
+        w["M"] = N * W - rng.randrange(W)
+        if w["M"] < 1:
+            w["M"] = N * W
+        w["main_kind"] = "dist"
+        w["source_attr"] = "dataset"
+    return w
 
 
 def geometry(w):
@@ -134,6 +164,8 @@ def geometry(w):
 def valid_world(w):
     N, B = w["N"], w["B"]
     if not (isinstance(N, int) and isinstance(B, int) and 1 <= B <= N and w["M"] >= N):
+        return False
+    if w["main_kind"] == "dist" and (not w.get("dist") or -(-w["M"] // w["dist"]["W"]) != N or w["dist"]["rank"] >= w["dist"]["W"]):
         return False
     if w["dlbs"] is not None and not (w["drop_last"] and w["dlbs"] % B == 0 and B <= w["dlbs"] <= N):
         return False
@@ -188,7 +220,7 @@ def reference(w, start_epoch=0, max_events=200000):
         if has_epoch:
             ev.append(["set_epoch", epoch])
         ev.append(["iter", "main"])
-        order = injection("main", N, M, w["main_kind"], epoch)[:spe]
+        order = injection("main", N, M, w["main_kind"], epoch, w.get("dist"))[:spe]
         for b in range(upe):
             batch = order[b * B:(b + 1) * B]
             for j, i in enumerate(batch):
@@ -226,7 +258,7 @@ class Rejected(Exception):
 def build(w, log, start=None, datasets=None, collators=None):
     from kappadata.samplers.interleaved_sampler import InterleavedSampler, InterleavedSamplerConfig
     attr = w.get("source_attr", "data_source")
-    main = make_sampler("main", w["N"], w["M"], w["main_kind"], log, attr, dataset=datasets[0] if datasets else None)
+    main = make_sampler("main", w["N"], w["M"], w["main_kind"], log, attr, dataset=datasets[0] if datasets else None, dist=w.get("dist"))
     cfgs = []
     for ci, c in enumerate(w["configs"]):
         s = make_sampler(f"c{ci}", c["n"], c["m"], c["kind"], log, attr, dataset=datasets[ci + 1] if datasets else None)
@@ -243,10 +275,17 @@ def build(w, log, start=None, datasets=None, collators=None):
         raise Rejected(f"{type(e).__name__}: {e}")
 
 
-def run_sampler(w, start=None, via="sampler", cap=None):
-    """returns (history, terminated)"""
-    log = []
-    s = build(w, log, start)
+def run_sampler(w, start=None, via="sampler", cap=None, sampler=None, log=None, foreign_epoch=None):
+    """returns (history, terminated); `sampler`/`log` allow a second pass over the same object"""
+    if sampler is None:
+        log = []
+        s = build(w, log, start)
+        if foreign_epoch is not None and hasattr(s.main_sampler, "epoch"):
+            s.main_sampler.epoch = foreign_epoch  # user code used the sampler before; nothing is announced to us
+    else:
+        s = sampler
+        del log[:]
+    run_sampler.last = (s, log)
     cap = cap if cap is not None else 10 ** 6
     n = 0
     if via == "sampler":
@@ -298,9 +337,9 @@ SHRINK_INTS = [(["world", "N"], 1), (["world", "B"], 1), (["world", "M"], 1), ([
 def world_candidates(plan):
     """extra, structure-aware simplifications tried before the generic ones"""
     w = plan["world"]
-    if w["main_kind"] != "seq":
+    if w["main_kind"] not in ("seq", "dist"):
         yield core._set(plan, ["world", "main_kind"], "seq")
-    if w["M"] != w["N"]:
+    if w["M"] != w["N"] and w["main_kind"] != "dist":
         yield core._set(plan, ["world", "M"], w["N"])
     if w["dlbs"] is not None:
         yield core._set(plan, ["world", "dlbs"], None)
@@ -316,7 +355,7 @@ def world_candidates(plan):
             for k in ks:
                 yield core._set(plan, ["world", "configs", ci, k], None)
     # shrink N and M together
-    if w["N"] > 1 and w["M"] == w["N"]:
+    if w["N"] > 1 and w["M"] == w["N"] and w["main_kind"] != "dist":
         for n in (w["N"] // 2, w["N"] - 1):
             if n >= 1:
                 p = core._set(plan, ["world", "N"], n)
